@@ -249,6 +249,81 @@ pub fn judge(h: &[u8], is_v1: bool, rec: &mut Recorder) {
     }
 }
 
+/// "`is_complete` is always the negation of `is_incomplete`": on every value that has the two
+/// methods - each parser's `Result`, the bare error value inside it, the auto-detecting result,
+/// and the items of TLV iteration (whose errors are `v2::ParseError` values too) - and the flags
+/// of a `Result` are those of the error it holds.
+fn flag_laws(x: &[u8], rec: &mut Recorder) {
+    use ppp::{v1, v2, HeaderResult, PartialResult};
+    let r = guard(|| {
+        let mut bad: Vec<String> = Vec::new();
+        let mut n = 0u64;
+        let mut law = |what: &str, res: (bool, bool), err: Option<(bool, bool)>, ok: bool, bad: &mut Vec<String>| {
+            if res.0 == res.1 || (ok && res.0) {
+                bad.push(format!("{}: is_incomplete={} is_complete={}{}", what, res.0, res.1, if ok { " on a success" } else { "" }));
+            }
+            if let Some(e) = err {
+                if e.0 == e.1 {
+                    bad.push(format!("{} (error value): is_incomplete={} is_complete={}", what, e.0, e.1));
+                }
+                if e != res {
+                    bad.push(format!("{}: the Result says {:?}, the error value it holds says {:?}", what, res, e));
+                }
+            }
+        };
+        let r = v1::Header::try_from(x);
+        law("v1::Header::try_from(&[u8])", (r.is_incomplete(), r.is_complete()), r.as_ref().err().map(|e| (e.is_incomplete(), e.is_complete())), r.is_ok(), &mut bad);
+        if let Err(v1::BinaryParseError::Parse(p)) = &r {
+            law("v1::ParseError inside BinaryParseError", (p.is_incomplete(), p.is_complete()), None, false, &mut bad);
+        }
+        n += 2;
+        if let Ok(s) = std::str::from_utf8(x) {
+            let r = v1::Header::try_from(s);
+            law("v1::Header::try_from(&str)", (r.is_incomplete(), r.is_complete()), r.as_ref().err().map(|e| (e.is_incomplete(), e.is_complete())), r.is_ok(), &mut bad);
+            let r = s.parse::<v1::Addresses>();
+            law("str::parse::<v1::Addresses>", (r.is_incomplete(), r.is_complete()), r.as_ref().err().map(|e| (e.is_incomplete(), e.is_complete())), r.is_ok(), &mut bad);
+            n += 2;
+        }
+        let r = v2::Header::try_from(x);
+        law("v2::Header::try_from", (r.is_incomplete(), r.is_complete()), r.as_ref().err().map(|e| (e.is_incomplete(), e.is_complete())), r.is_ok(), &mut bad);
+        n += 1;
+        let h = HeaderResult::parse(x);
+        let inner = match &h {
+            HeaderResult::V1(r) => (r.is_incomplete(), r.is_complete()),
+            HeaderResult::V2(r) => (r.is_incomplete(), r.is_complete()),
+        };
+        law("HeaderResult::parse", (h.is_incomplete(), h.is_complete()), Some(inner), matches!(&h, HeaderResult::V1(Ok(_)) | HeaderResult::V2(Ok(_))), &mut bad);
+        n += 1;
+        // TLV iteration over the bytes as a section, and over an accepted header's section
+        let mut sections: Vec<v2::TypeLengthValues<'_>> = vec![v2::TypeLengthValues::from(&x[..x.len().min(600)])];
+        if let Ok(hd) = &r {
+            sections.push(hd.tlvs());
+        }
+        for sec in sections {
+            for item in sec.take(40) {
+                n += 1;
+                let res = (item.is_incomplete(), item.is_complete());
+                let ok = item.is_ok();
+                let err = item.as_ref().err().map(|e| (e.is_incomplete(), e.is_complete()));
+                law("TLV iteration item", res, err, ok, &mut bad);
+            }
+        }
+        (bad, n)
+    });
+    match r {
+        Ok((bad, n)) => {
+            rec.events(n);
+            if bad.is_empty() {
+                rec.class("flag-laws|results, error values, TLV items", || show(x, 60));
+            }
+            for d in bad.into_iter().take(3) {
+                rec.violation("flags-inconsistent:values", enc_case("any", &x[..x.len().min(4000)]), skeleton_text(&x[..x.len().min(60)]), format!("flag law broken on {:?}: {}", show(x, 100), d));
+            }
+        }
+        Err(_) => rec.class("observed:panic(C03's subject)", || show(x, 60)),
+    }
+}
+
 /// A server loop (examples/server.rs) over several connections that share ONE receive buffer:
 /// per connection a stream (valid v1 / v2 header or a broken one, followed by payload) arrives in
 /// scripted reads; after each read the auto-detecting parser looks at the buffer. The verdict
@@ -400,7 +475,11 @@ impl Monitor for C05 {
             "c05-server" => server_loop(idx, seed, rec),
             _ => {
                 // the flag laws on arbitrary (mostly invalid) inputs
-                let x = if rng.coin() {
+                let x = if rng.chance(1, 5) {
+                    let names = ["tlv-wf", "tlv-rand", "tlv-sized", "tlv-types"];
+                    let name = names[rng.below(4) as usize];
+                    spec::v2::tlv_case(name, if name == "tlv-types" { idx % 768 } else { idx }, seed)
+                } else if rng.coin() {
                     let names = ["v1-valid", "v1-field", "v1-eol", "v1-len", "v1-mut", "v1-rand"];
                     spec::v1gen::v1_case(names[rng.below(6) as usize], idx, seed)
                 } else {
@@ -410,6 +489,7 @@ impl Monitor for C05 {
                     b
                 };
                 rec.case(hash_bytes(&x), x.len() > 2);
+                flag_laws(&x, rec);
                 for e in 0..4 {
                     if let Some(r) = parse(e, &x) {
                         rec.event();
@@ -436,6 +516,7 @@ impl Monitor for C05 {
                 "v1" => judge(&bytes, true, rec),
                 "v2" => judge(&bytes, false, rec),
                 _ => {
+                    flag_laws(&bytes, rec);
                     for e in 0..4 {
                         if let Some(r) = parse(e, &bytes) {
                             rec.event();
